@@ -98,6 +98,9 @@ def main():
                 files.append((d, os.path.join(REPO, "src", d, f)))
     pool = []
     for d, f in files:
+        base = os.path.basename(f)
+        if "masked-word-direct" in base:      # AVR-only masked word code: not compiled in any host configuration
+            continue
         text, cands = candidates(f)
         for c in cands:
             pool.append((d, f, c))
@@ -118,7 +121,15 @@ def main():
         p = subprocess.run(["diff", "-u", "--label", "a/" + rel, "--label", "b/" + rel, os.path.join(work, "a"), os.path.join(work, "b")], stdout=subprocess.PIPE, text=True)
         patch = os.path.join(work, "m.diff")
         open(patch, "w").write(p.stdout)
-        r = subprocess.run([os.path.join(V, "tools", "mutant.sh"), patch] + COVER[d], stdout=subprocess.PIPE, stderr=subprocess.STDOUT, text=True, cwd=V)
+        checks = list(COVER[d])
+        base = os.path.basename(f)
+        if "hex" in base:
+            checks = ["C20"]
+        elif "masked" in base and d == "aead":
+            checks = ["C10", "C01", "C02"]
+        elif "byte-array" in base:
+            checks = ["C20", "C17"]
+        r = subprocess.run([os.path.join(V, "tools", "mutant.sh"), patch] + checks, stdout=subprocess.PIPE, stderr=subprocess.STDOUT, text=True, cwd=V)
         out = r.stdout
         exits = dict(re.findall(r"^(C\d\d) exit=(\d+)", out, re.M))
         if any(v == "1" for v in exits.values()):
@@ -130,7 +141,7 @@ def main():
         else:
             verdict = "SURVIVED"
             survived += 1
-        rec = {"file": rel, "line": line, "what": what, "checks": COVER[d], "exits": exits, "verdict": verdict, "old": text.split("\n")[line - 1].strip()[:160]}
+        rec = {"file": rel, "line": line, "what": what, "checks": checks, "exits": exits, "verdict": verdict, "old": text.split("\n")[line - 1].strip()[:160]}
         open(log, "a").write(json.dumps(rec) + "\n")
         print("%-9s %s:%d  %s   [%s]" % (verdict[:9], rel, line, what, rec["old"][:80]), flush=True)
         shutil.rmtree(work, ignore_errors=True)
